@@ -25,8 +25,31 @@ type failRead struct {
 	Mode int // 0 Read only, 1 + ReadByte, 2 Peek/Discard
 }
 
+// failFired counts the times a failing source has handed its error to the Reader under test.
+var failFired int
+
 func (f *failRead) Read(p []byte) (int, error) {
+	if f.Mode == 3 {
+		// one-shot: the call that reaches position At returns its bytes TOGETHER with the error (a
+		// deadline error: Timeout() is true); afterwards the source works again
+		lim := len(f.B)
+		if f.Pos < f.At && f.At < lim {
+			lim = f.At
+		}
+		if f.Pos >= len(f.B) {
+			return 0, io.EOF
+		}
+		n := copy(p, f.B[f.Pos:lim])
+		f.Pos += n
+		if f.Pos == f.At && n > 0 {
+			f.At = -1
+			failFired++
+			return n, f.Err
+		}
+		return n, nil
+	}
 	if f.Pos >= f.At {
+		failFired++
 		return 0, f.Err
 	}
 	lim := f.At
@@ -130,7 +153,10 @@ func failSrcKinds(at int) []srcKind {
 			return &base, nil
 		}
 	}
-	return []srcKind{{Name: "fail-ReadOnly", Make: mk(0)}, {Name: "fail-ByteReader", Exact: true, Make: mk(1)}, {Name: "fail-Buffered", Exact: true, Make: mk(2)}}
+	once := func(d []byte, _ *rand.Rand) (io.Reader, func() int) {
+		return &failRead{B: d, At: at, Err: &vhlib.SentinelErr{Tag: 7, TO: true}, Mode: 3}, nil
+	}
+	return []srcKind{{Name: "fail-once-with-data(timeout)", Make: once}, {Name: "fail-ReadOnly", Make: mk(0)}, {Name: "fail-ByteReader", Exact: true, Make: mk(1)}, {Name: "fail-Buffered", Exact: true, Make: mk(2)}}
 }
 
 // greedySource: sources through which the bit reader sees every available
@@ -255,10 +281,14 @@ func runC09(r *vhlib.Run) {
 			}
 			for _, at := range ats {
 				for _, sk := range failSrcKinds(at) {
+					failFired = 0
 					o := observe(c, s.Data, sk, schedule(rng, rng.Intn(5)), rng)
 					rp := map[string]interface{}{"codec": c.Name, "input": vhlib.Hex(s.Data), "fail_at": at, "source": sk.Name}
 					r.Eval("srcfail:"+c.Name, true, s.Data, []byte(fmt.Sprint(at, sk.Name)))
 					ok := o.Cls == "Src7" || (o.Cls == "nil" && bytes.Equal(o.Out, s.Plain))
+					// (a source that fails ONCE, handing its error over together with data, and then works again:
+					// the Reader may go on - a bufio layer hands such an error over only when it runs dry - but
+					// if it does report the error, the report is sticky like any other: checked inside observe)
 					if se, isS := o.Err.(*vhlib.SentinelErr); o.Cls == "Src7" && (!isS || se.Tag != 7) {
 						ok = false
 					}
